@@ -196,6 +196,31 @@ def run_profile(pid, tier, p, kind, base, seed):
                roots=rep["root_mismatches"], panics=rep["panics"], nontrivial=rep["nontrivial"],
                by_field=rep["by_field"])
     ok, cand = mem.split_trace(trace)
+    if kind == "edge":
+        # a caller that is pending where the specification has it answered may only be late: every such root
+        # mismatch is run again with the final drain appended (all slots resolved, all tasks run, "end"), after
+        # which a pending caller is a hang
+        ext = []
+        for m in rep.get("mismatches", []):
+            if m.get("root") and "cal" in m.get("fields", []) and len(ext) < 80:
+                ops = list(m["ops"])
+                called = [o["c"] for o in ops if o["a"] == "call"]
+                for _ in range(2):
+                    for c in called:
+                        ops.append({"a": "ropt", "c": c, "o": "miss"})
+                        ops.append({"a": "rreq", "c": c, "o": "ok"})
+                    for c in called:
+                        ops.append({"a": "run", "c": c})
+                ops.append({"a": "end"})
+                ext.append({"ops": ops, "obs": None})
+        if ext:
+            escripts = os.path.join(d, "drained.txt")
+            with open(escripts, "w") as f:
+                for s in ext:
+                    f.write(json.dumps(s) + "\n")
+            _, etrace = replay_scripts(d, p, escripts, "drained", sample=len(ext))
+            ok2, cand2 = mem.split_trace(etrace)
+            cand = cand + ok2 + cand2
     if kind == "rand":
         out["nontrivial"] = sum(1 for s in ok if any(c[0] not in ("idle", "pending")
                                                        for c in json.loads(s[-1])["obs"]["cal"]))
